@@ -30,6 +30,12 @@ impl Parsable for FileLocation {
             if let token::Value::Space(_) = t.value() {
                 break;
             }
+            // TeX.2021.526: only character tokens up to other_char belong to the name; an (unexpandable)
+            // active character ends it like a control sequence does.
+            if let token::Value::CommandRef(_) = t.value() {
+                input.back(t);
+                break;
+            }
             let c = match t.char() {
                 None => {
                     input.back(t);
